@@ -11,7 +11,7 @@ import (
 var (
 	gridPartitions = []int32{0, 1, 255, 65535}
 	gridOffsets    = []int64{0, 1, 1<<16 - 1, 1 << 16, 1<<16 + 1, 1<<31 - 1, 1 << 31, 1<<31 + 1, 1<<47 - 1}
-	gridEpochs     = []int32{0, 1, 65535}
+	gridEpochs     = []int32{0, 1, 65534, 65535}
 )
 
 func newPart(topic string, part int32) *partState {
@@ -78,10 +78,77 @@ func gridPlan(cs *Case) (map[partKey]*partState, []*recState, [][]*recState) {
 var (
 	injectPartitions = []int32{0, 1, 2, 255, 256, 4095, 32767, 32768, 65534, 65535}
 	injectBases      = []int64{0, 1<<16 - 6, 1<<31 - 7, 1<<32 - 5, 1<<40 + 3, 1<<47 - 1}
-	injectEpochs     = []int32{0, 1, 250, 65530}
+	injectEpochs     = []int32{0, 1, 250, 65530, 65534, 65535}
 )
 
+var edgeEpochs = []int32{65535, 65534, 1, 0}
+
+// injectEdgePlan: every topic of the case gets one of the epochs
+// {65535, 65534, 1, 0}; each of the partitions {0, 1, 255, 65535} gets a short
+// run of records on one edge offset range (plan 1: 0..3, plan 2: 2^31-2..2^31+2,
+// plan 3: 2^47-5..2^47-1; plan 4: as plan 1 but without partition 0 and with
+// split records). All partitions are fresh, so every first mark is visible.
+func injectEdgePlan(cs *Case) (map[partKey]*partState, []*recState, [][]*recState) {
+	rng := rand.New(rand.NewSource(cs.Seed))
+	parts := map[partKey]*partState{}
+	var all []*recState
+	var plan [][]*recState
+	partitions := []int32{0, 1, 255, 65535}
+	var offs []int64
+	switch cs.EdgePlan {
+	case 2:
+		offs = []int64{1<<31 - 2, 1<<31 - 1, 1 << 31, 1<<31 + 1, 1<<31 + 2}
+	case 3:
+		offs = []int64{1<<47 - 5, 1<<47 - 4, 1<<47 - 3, 1<<47 - 2, 1<<47 - 1}
+	case 4:
+		partitions = []int32{1, 255, 65535}
+		offs = []int64{0, 1, 2, 3, 4, 5}
+	default:
+		offs = []int64{0, 1, 2, 3}
+	}
+	for ti, t := range cs.Topics {
+		epoch0 := edgeEpochs[ti%len(edgeEpochs)]
+		for _, part := range partitions {
+			st := newPart(t.Name, part)
+			st.start = offs[0]
+			epoch := epoch0
+			var cur []*recState
+			for i, off := range offs {
+				if epoch0 == 65534 && i == len(offs)-2 {
+					epoch = 65535 // a new leader inside the run
+					if len(cur) > 0 {
+						plan = append(plan, cur)
+						cur = nil
+					}
+				}
+				r := &recState{Topic: t.Name, TopicIdx: ti, Part: part, Off: off, Epoch: epoch, Kind: "ok", Op: "pass"}
+				r.ID = recID(t.Name, part, off)
+				if i == 1 && cs.EdgePlan != 4 {
+					r.Op = "discard"
+				}
+				makeValue(rng, cs, r)
+				st.recs = append(st.recs, r)
+				st.index(r)
+				all = append(all, r)
+				cur = append(cur, r)
+				if len(cur) == 2 {
+					plan = append(plan, cur)
+					cur = nil
+				}
+			}
+			if len(cur) > 0 {
+				plan = append(plan, cur)
+			}
+			parts[st.key] = st
+		}
+	}
+	return parts, all, plan
+}
+
 func injectPlan(cs *Case) (map[partKey]*partState, []*recState, [][]*recState) {
+	if cs.EdgePlan > 0 {
+		return injectEdgePlan(cs)
+	}
 	rng := rand.New(rand.NewSource(cs.Seed))
 	parts := map[partKey]*partState{}
 	var all []*recState
@@ -247,7 +314,7 @@ func maybeRepeat(cs *Case, seed int64, pct int) {
 	cs.TopicList = repeatedList(cs.Topics, ps[rng.Intn(len(ps))])
 }
 
-var schedBases = []int64{0, 0, 0, 1, 65530, 1<<31 - 40, 1<<32 + 5, 1<<47 - 2000}
+var schedBases = []int64{0, 0, 0, 1, 65530, 1<<31 - 40, 1<<31 - 2, 1<<32 + 5, 1<<47 - 2000}
 
 func pickI(rng *rand.Rand, xs ...int) int { return xs[rng.Intn(len(xs))] }
 
@@ -265,7 +332,7 @@ func schedCase(i int, seed int64) Case {
 				Records:   20 + rng.Intn(100),
 				GapPct:    pickI(rng, 0, 0, 10, 30),
 				BatchMax:  pickI(rng, 1, 3, 6, 12),
-				Epoch0:    int32(pickI(rng, 0, 0, 1, 7, 254, 300, 65533)),
+				Epoch0:    int32(pickI(rng, 0, 0, 1, 7, 254, 300, 65533, 65534, 65535)),
 				EpochBump: pickI(rng, 0, 5, 20),
 				EpochStep: int32(pickI(rng, 1, 1, 3)),
 			}
@@ -303,6 +370,76 @@ func schedCase(i int, seed int64) Case {
 	cs.ReleaseWaves = pickI(rng, 1, 2, 4)
 	cs.WaveMs = pickI(rng, 0, 20, 120)
 	maybeRepeat(&cs, seed, 40)
+	if srng := rand.New(rand.NewSource(seed ^ 0x5b117)); srng.Intn(100) < 30 {
+		cs.SplitPct = pickI(srng, 15, 40, 70) // chain [split, script]
+	}
+	return cs
+}
+
+// schedEdgeCase: broker-fed records with leader epoch edgeEpochs[k] on edge
+// offsets: topic 0 has 256 partitions of which 0 (offsets 0..), 1 (around
+// 2^31) and 255 (ending at 2^47-1) carry records and are assigned; topic 1
+// partition 0 ends at 2^47-1, partition 1 starts at 0.
+func schedEdgeCase(k int, seed int64) Case {
+	cs := schedCase(1000+k, seed)
+	cs.Name = fmt.Sprintf("sched-edge-epoch%d", edgeEpochs[k%len(edgeEpochs)])
+	e := edgeEpochs[k%len(edgeEpochs)]
+	mk := func(base int64) PartSpec {
+		ps := PartSpec{Base: base, Records: 8, BatchMax: 3, Epoch0: e, EpochStep: 1}
+		if e == 65534 {
+			ps.EpochBump = 40
+		}
+		return ps
+	}
+	rng := rand.New(rand.NewSource(seed))
+	cs.Topics = topicNames(2, rng)
+	cs.TopicList = nil
+	big := make([]PartSpec, 256)
+	big[0], big[1], big[255] = mk(0), mk(1<<31-2), mk(1<<47-8)
+	cs.Topics[0].Parts = big
+	cs.Topics[1].Parts = []PartSpec{mk(1<<47 - 8), mk(0)}
+	cs.MudPct, cs.BadPct, cs.BigPct, cs.MaxEventSize = 0, 0, 0, 0
+	cs.DiscardPct, cs.SplitPct = 10, 0
+	cs.Balancer, cs.Offset = "round-robin", "oldest"
+	cs.ReleaseWaves, cs.WaveMs = 1, 0
+	return cs
+}
+
+// splitEdgeCase: the real split action in the chain, records on topics and
+// partitions other than Topics[0]/0; variant 0: partition 0 of the first topic
+// has no records and is not assigned, variant 1: it only has high offsets.
+func splitEdgeCase(k int, seed int64) Case {
+	cs := schedCase(2000+k, seed)
+	cs.Name = fmt.Sprintf("split-edge-%d", k)
+	rng := rand.New(rand.NewSource(seed))
+	cs.Topics = topicNames(2, rng)
+	cs.TopicList = nil
+	mk := func(base int64, n int, e int32) PartSpec {
+		return PartSpec{Base: base, Records: n, BatchMax: 4, Epoch0: e, EpochStep: 1, GapPct: 10}
+	}
+	if k%2 == 0 {
+		cs.Topics[0].Parts = []PartSpec{{}, mk(0, 40, 0), mk(5, 30, 2)}
+	} else {
+		cs.Topics[0].Parts = []PartSpec{mk(1<<40, 25, 3), mk(0, 40, 0)}
+	}
+	cs.Topics[1].Parts = []PartSpec{mk(0, 40, 1), mk(100, 30, 0)}
+	cs.MudPct, cs.BadPct, cs.BigPct, cs.MaxEventSize = 0, 2, 0, 0
+	cs.SplitPct = 50
+	cs.Balancer, cs.Offset = "round-robin", "oldest"
+	return cs
+}
+
+func injectEdgeCase(plan int, seed int64) Case {
+	cs := injectCase(1000+plan, seed)
+	cs.Name = fmt.Sprintf("inject-edge-plan%d", plan)
+	rng := rand.New(rand.NewSource(seed))
+	cs.Topics = topicNames(4, rng)
+	cs.TopicList = nil
+	cs.EdgePlan = plan
+	cs.MudPct, cs.BadPct = 0, 0
+	if plan == 4 {
+		cs.SplitPct = 60
+	}
 	return cs
 }
 
@@ -344,6 +481,9 @@ func injectCase(i int, seed int64) Case {
 	cs.Meta = rng.Intn(2) == 0
 	if i%2 == 0 { // every other inject case names a topic more than once
 		maybeRepeat(&cs, seed, 100)
+	}
+	if i%3 == 1 {
+		cs.SplitPct = 40 // chain [split, script]
 	}
 	return cs
 }
